@@ -278,3 +278,40 @@ func OracleC12() *Oracle {
 		},
 	}
 }
+
+// OracleC19Run checks the run clause of C19: a flags-0 block of at least 32
+// bytes that lies inside a run of one repeated byte carries at most one
+// literal byte (hash parsers) or at most MinMatchLen literal bytes (GSAP, OSAP
+// with MinMatchLen <= 8).
+func OracleC19Run() *Oracle {
+	return &Oracle{
+		Parse: func(h *Hist, ev *ParseEv) {
+			if ev.Nil || ev.Err != nil || ev.Flags != 0 || ev.N < 32 || ev.N > ev.Unparsed {
+				return
+			}
+			blkBytes := h.Stream[ev.PosBefore : ev.PosBefore+ev.N]
+			c := blkBytes[0]
+			for _, x := range blkBytes {
+				if x != c {
+					return
+				}
+			}
+			limit := 1
+			switch h.PC.Kind {
+			case "GSAP", "OSAP":
+				if h.MinMatch > 8 {
+					return
+				}
+				limit = h.MinMatch
+			}
+			h.St.Add("run_blocks_checked", 1)
+			if len(ev.Blk.Literals) > limit {
+				first := "inside the run"
+				if ev.PosBefore == 0 || h.Stream[ev.PosBefore-1] != c {
+					first = "starting at the first byte of the run"
+				}
+				h.Fail("run-literals", "block of %d bytes 0x%02x at stream position %d (buffer position %d, %s) carries %d literal bytes, allowed %d; sequences %v", ev.N, c, ev.PosBefore, ev.PosBefore-ev.OffBefore, first, len(ev.Blk.Literals), limit, ev.Blk.Sequences)
+			}
+		},
+	}
+}
